@@ -26,6 +26,8 @@ pub enum HideMode {
     BlocklistFnVar,
     OpaqueOption,
     OpaqueAnnotation,
+    /// matched by a blocklist and by --opaque-type at the same time: the blocklist wins
+    BlocklistAndOpaque,
 }
 
 #[derive(Clone, Debug, Serialize, Deserialize)]
@@ -38,6 +40,9 @@ pub struct Case {
     pub flags: Vec<String>,
     #[serde(default)]
     pub keep_known: bool,
+    /// C++ class graph (when present, `prog` is ignored)
+    #[serde(default)]
+    pub cpp: Option<crate::props::c07::Graph>,
 }
 
 const EXTRA_FLAGS: &[&[&str]] = &[
@@ -127,13 +132,19 @@ impl Property for C10 {
             1 => Just(HideMode::BlocklistFnVar),
             3 => Just(HideMode::OpaqueOption),
             2 => Just(HideMode::OpaqueAnnotation),
+            1 => Just(HideMode::BlocklistAndOpaque),
         ];
-        (program_strategy(GenCfg::everything()), proptest::collection::vec((any::<u16>(), mode), 1..5), proptest::option::weighted(0.15, 1u8..4), flags_strategy())
-            .prop_map(|(prog, hide, file_prefix, flags)| Case { prog, hide, file_prefix, flags, keep_known: false })
-            .boxed()
+        let c_cases = (program_strategy(GenCfg::everything()), proptest::collection::vec((any::<u16>(), mode.clone()), 1..5), proptest::option::weighted(0.15, 1u8..4), flags_strategy())
+            .prop_map(|(prog, hide, file_prefix, flags)| Case { prog, hide, file_prefix, flags, keep_known: false, cpp: None });
+        let cpp_cases = (crate::props::c07::graph_strategy(8), proptest::collection::vec((any::<u16>(), mode), 1..4), flags_strategy())
+            .prop_map(|(graph, hide, flags)| Case { prog: Program { decls: vec![] }, hide, file_prefix: None, flags, keep_known: false, cpp: Some(graph) });
+        prop_oneof![3 => c_cases, 1 => cpp_cases].boxed()
     }
     fn generated(&self, tier: Tier) -> usize {
         tier.pick(1200, 20000)
+    }
+    fn fixed_cases(&self, _tier: Tier) -> Vec<Case> {
+        cpp_grid()
     }
     fn shrink_steps(&self) -> usize {
         60
@@ -142,6 +153,9 @@ impl Property for C10 {
         4
     }
     fn evaluate(&self, case: &Case, env: &Env) -> Outcome {
+        if let Some(g) = &case.cpp {
+            return evaluate_cpp(case, g, env);
+        }
         let mut out = Outcome::new();
         out.evaluations = 0;
         let mut prog = case.prog.clone();
@@ -197,7 +211,7 @@ impl Property for C10 {
         let mut opaque: BTreeMap<usize, HideMode> = BTreeMap::new();
         for (p, m) in &case.hide {
             match m {
-                HideMode::BlocklistType | HideMode::BlocklistItem => {
+                HideMode::BlocklistType | HideMode::BlocklistItem | HideMode::BlocklistAndOpaque => {
                     if let Some(i) = pick(&type_idx, *p) {
                         if !opaque.contains_key(&i) {
                             blocked.entry(i).or_insert(*m);
@@ -323,6 +337,7 @@ impl Property for C10 {
                 (Decl::Var { .. }, HideMode::BlocklistFnVar) if i % 2 == 0 => flags.extend(["--blocklist-var".to_string(), name]),
                 (Decl::Func(_), _) | (Decl::Var { .. }, _) => flags.extend(["--blocklist-item".to_string(), name]),
                 (_, HideMode::BlocklistType) => flags.extend(["--blocklist-type".to_string(), name]),
+                (_, HideMode::BlocklistAndOpaque) => flags.extend(["--blocklist-type".to_string(), name.clone(), "--opaque-type".to_string(), name]),
                 _ => flags.extend(["--blocklist-item".to_string(), name]),
             }
         }
@@ -590,4 +605,260 @@ impl Property for C10 {
         out.sample = Some(json!({"header": header_text, "flags": flags}));
         out
     }
+}
+
+/// C++ branch: class graphs (bases, virtual methods, templates) with classes hidden. The
+/// bindings' own layout assertions are the layout oracle here (evaluated by rustc); a compile
+/// error that the same header shows with nothing hidden is not reported.
+fn evaluate_cpp(case: &Case, graph: &crate::props::c07::Graph, env: &Env) -> Outcome {
+    use crate::props::c07::NodeKind;
+    let mut out = Outcome::new();
+    out.evaluations = 0;
+    let mut g = graph.clone();
+    g.cpp = true;
+    g.normalise();
+    let order = g.order_from_prios(&[]);
+    let classes: Vec<usize> = (0..g.nodes.len()).filter(|i| matches!(g.nodes[*i].kind, NodeKind::Class | NodeKind::Union)).collect();
+    if classes.is_empty() {
+        return out;
+    }
+    let mut blocked: BTreeMap<usize, HideMode> = BTreeMap::new();
+    let mut opaque: BTreeMap<usize, HideMode> = BTreeMap::new();
+    for (p, m) in &case.hide {
+        let i = classes[(*p as usize * classes.len()) >> 16];
+        match m {
+            HideMode::BlocklistType | HideMode::BlocklistItem | HideMode::BlocklistAndOpaque | HideMode::BlocklistFnVar => {
+                if !opaque.contains_key(&i) {
+                    blocked.entry(i).or_insert(if *m == HideMode::BlocklistFnVar { HideMode::BlocklistItem } else { *m });
+                }
+            }
+            HideMode::OpaqueOption | HideMode::OpaqueAnnotation => {
+                if !blocked.contains_key(&i) {
+                    opaque.entry(i).or_insert(HideMode::OpaqueOption);
+                }
+            }
+        }
+    }
+    // known findings, excluded by construction (counted) unless replaying them:
+    // (e) a blocklisted base class is not named by the derived class (and a derived class without
+    //     members of its own loses the base's size); (f) an opaque *empty* base class takes a byte
+    if !case.keep_known {
+        let is_base: BTreeSet<usize> = g.nodes.iter().flat_map(|n| n.bases.iter().copied()).collect();
+        let empty = |i: usize| g.nodes[i].fields.is_empty() && !g.nodes[i].virtual_method && g.nodes[i].bases.iter().all(|b| g.nodes[*b].fields.is_empty() && !g.nodes[*b].virtual_method);
+        let b0 = blocked.len();
+        blocked.retain(|i, _| !is_base.contains(i));
+        let o0 = opaque.len();
+        opaque.retain(|i, _| !(is_base.contains(i) && empty(*i)));
+        out.excluded_known += (b0 - blocked.len()) + (o0 - opaque.len());
+    }
+    if blocked.is_empty() && opaque.is_empty() {
+        out.class("nothing-to-hide");
+        return out;
+    }
+    let header = g.render(&order);
+    std::fs::write(env.dir.join("in.hpp"), &header).ok();
+    // clang's numbers for the user definitions of blocklisted classes
+    let mut exprs = vec![];
+    for i in blocked.keys() {
+        exprs.push(format!("sizeof(N{i})"));
+        exprs.push(format!("alignof(N{i})"));
+    }
+    std::fs::write(env.dir.join("table.cpp"), crate::props::c06::c_table_source("in.hpp", &exprs, true)).ok();
+    let table = match crate::props::c06::clang_table(&env.dir, "table.cpp", "x86_64-unknown-linux-gnu", true) {
+        Ok(t) => t,
+        Err(e) => return out.inconclusive(format!("clang: {e}\n{header}")),
+    };
+    let mut case_flags = case.flags.clone();
+    if !case.keep_known && !opaque.is_empty() {
+        // known finding (see the C branch): PartialOrd/Ord through the opaque-array helper
+        let before = case_flags.len();
+        case_flags.retain(|f| f != "--with-derive-partialord" && f != "--with-derive-ord");
+        if case_flags.len() != before {
+            out.excluded_known += 1;
+        }
+    }
+    let base_flags: Vec<String> = {
+        let mut f: Vec<String> = vec!["--no-include-path-detection".into(), "--formatter=none".into()];
+        f.extend(case_flags.iter().filter(|x| *x != "--no-layout-tests").cloned());
+        f
+    };
+    let mut flags = base_flags.clone();
+    for (k, (i, m)) in blocked.iter().enumerate() {
+        let name = format!("N{i}");
+        match m {
+            HideMode::BlocklistType => flags.extend(["--blocklist-type".to_string(), name.clone()]),
+            HideMode::BlocklistAndOpaque => flags.extend(["--blocklist-type".to_string(), name.clone(), "--opaque-type".to_string(), name.clone()]),
+            _ => flags.extend(["--blocklist-item".to_string(), name.clone()]),
+        }
+        let (sz, al) = (table[2 * k], table[2 * k + 1]);
+        let carrier = match al {
+            1 => "u8",
+            2 => "u16",
+            4 => "u32",
+            8 => "u64",
+            _ => "u128",
+        };
+        flags.push("--raw-line".into());
+        flags.push(format!("#[repr(C)] pub struct {name} {{ _align: [{carrier}; 0usize], _user: [u8; {sz}usize] }}"));
+    }
+    for i in opaque.keys() {
+        flags.extend(["--opaque-type".to_string(), format!("N{i}")]);
+    }
+    let gen = |fl: &[String], tag: &str| -> Result<(String, Inventory), String> {
+        let input = BgInput { files: vec![], headers: vec!["in.hpp".into()], flags: fl.to_vec(), clang_args: vec!["-x".into(), "c++".into(), "-std=c++14".into()], callbacks: vec![] };
+        match bg::generate(&input, &env.dir) {
+            BgResult::Ok(t) => {
+                let _ = std::fs::write(env.dir.join(format!("{tag}.rs")), format!("#![allow(warnings)]\n{t}"));
+                rs::inventory(&t).map(|i| (t, i)).map_err(|e| format!("unparseable: {e}"))
+            }
+            other => Err(other.describe()),
+        }
+    };
+    let ctx = |what: &str| format!("{what}\nflags {flags:?}\n--- header ---\n{header}");
+    let (_text, inv) = match gen(&flags, "hidden") {
+        Ok(x) => x,
+        Err(e) => {
+            out.fail("generation-failed/cpp", ctx(&e));
+            return out;
+        }
+    };
+    out.evaluations += 1;
+    for (i, m) in &blocked {
+        let name = format!("N{i}");
+        out.class(format!("hidden:cpp-class:{m:?}"));
+        if inv.items.iter().any(|it| it.name == name && matches!(it.kind.as_str(), "struct" | "union" | "type") && !it.fields.iter().any(|f| f.name == "_user")) {
+            out.fail(format!("blocklisted-defined/cpp-class/{m:?}"), ctx(&format!("`{name}` is blocklisted but defined")));
+        }
+        if inv.asserts.iter().any(|a| a.ty == name) {
+            out.fail("blocklisted-asserted/cpp-class", ctx(&format!("layout assertion for blocklisted `{name}`")));
+        }
+        for im in inv.items.iter().filter(|x| x.kind == "impl" && x.impl_trait.is_empty() && x.impl_self.trim() == name) {
+            out.fail("blocklisted-defined/cpp-methods", ctx(&format!("methods {:?} of blocklisted `{name}` are emitted", im.methods)));
+        }
+    }
+    for i in opaque.keys() {
+        let name = format!("N{i}");
+        out.class("hidden:cpp-class:opaque");
+        let Some(it) = inv.items.iter().find(|it| (it.kind == "struct" || it.kind == "union") && it.name == name) else { continue };
+        for f in &it.fields {
+            if !OPAQUE_FIELDS.contains(&f.name.as_str()) {
+                out.fail("opaque-exposes-fields/cpp", ctx(&format!("opaque `{name}` has field `{}`", f.name)));
+            }
+        }
+    }
+    // derives through blocklisted classes (members and bases)
+    let blocked_set: BTreeSet<usize> = blocked.keys().copied().collect();
+    for i in &classes {
+        if blocked.contains_key(i) || opaque.contains_key(i) {
+            continue;
+        }
+        // direct or transitive by-value containment, not looking into opaque classes
+        fn contains(g: &crate::props::c07::Graph, i: usize, set: &BTreeSet<usize>, stop: &BTreeMap<usize, HideMode>, depth: u32) -> bool {
+            if depth > 20 || stop.contains_key(&i) {
+                return false;
+            }
+            let (deps, _ptrs) = g.deps(i);
+            deps.iter().any(|d| set.contains(d) || contains(g, *d, set, stop, depth + 1))
+        }
+        if contains(&g, *i, &blocked_set, &opaque, 0) {
+            if let Some(it) = inv.items.iter().find(|it| (it.kind == "struct" || it.kind == "union") && it.name == format!("N{i}")) {
+                if !it.derives.is_empty() && !it.fields.iter().any(|f| f.name == "_bindgen_opaque_blob") {
+                    out.fail("derive-through-blocklisted/cpp", ctx(&format!("`N{i}` contains a blocklisted class by value but derives {:?}", it.derives)));
+                }
+            }
+        }
+    }
+    // compile: layout assertions are evaluated
+    let rc = tools::Rustc { dir: &env.dir, edition: "2021", nightly: false };
+    let classes_of = |stderr: &str| -> BTreeSet<(String, String)> {
+        let lines: Vec<&str> = stderr.lines().collect();
+        let mut v = BTreeSet::new();
+        for (k, l) in lines.iter().enumerate() {
+            if l.starts_with("error") && !l.starts_with("error: aborting") {
+                v.insert(crate::props::c01::error_class(&lines[k..].join("\n")));
+            }
+        }
+        v
+    };
+    match rc.check_lib("hidden.rs") {
+        Ok(o) if !o.ok() => {
+            let mine = classes_of(&o.stderr);
+            let theirs = match gen(&base_flags, "plain") {
+                Ok(_) => match rc.check_lib("plain.rs") {
+                    Ok(p) if !p.ok() => classes_of(&p.stderr),
+                    _ => BTreeSet::new(),
+                },
+                Err(_) => BTreeSet::new(),
+            };
+            match mine.difference(&theirs).next() {
+                Some((code, class)) => {
+                    let is_base: BTreeSet<usize> = g.nodes.iter().flat_map(|n| n.bases.iter().copied()).collect();
+                    let tag = if blocked.keys().any(|i| is_base.contains(i)) {
+                        "cpp/blocklisted-base"
+                    } else if opaque.keys().any(|i| is_base.contains(i) && g.nodes[*i].fields.is_empty() && !g.nodes[*i].virtual_method) {
+                        "cpp/opaque-empty-base"
+                    } else {
+                        "cpp"
+                    };
+                    out.fail(format!("rustc-rejects/{code}/{class}/{tag}"), ctx(&o.stderr.chars().take(1500).collect::<String>()))
+                }
+                None => out.excluded_known += 1,
+            }
+        }
+        Ok(_) => {}
+        Err(e) => return out.inconclusive(format!("rustc: {e}")),
+    }
+    let used = classes.iter().any(|i| {
+        let (deps, _) = g.deps(*i);
+        deps.iter().any(|d| blocked.contains_key(d) || opaque.contains_key(d))
+    });
+    if used {
+        out.nontrivial(format!("{:x}", fnv(&format!("{header}{flags:?}"))));
+    }
+    out.class("lang:c++");
+    out.sample = Some(json!({"header": header, "flags": flags}));
+    out
+}
+
+/// Systematic C++ family: a hidden class H (plain / polymorphic / with destructor / with a base
+/// of its own) x how it is hidden x how the rest uses it (base of a plain class, base of a class
+/// with its own virtual method, member, array element, pointer, template argument).
+fn cpp_grid() -> Vec<Case> {
+    use crate::props::c07::{Arg, FieldKind, Graph, Node, NodeKind};
+    let node = |kind: NodeKind, bases: Vec<usize>, fields: Vec<FieldKind>, vm: bool, dtor: bool| Node { kind, bases, virtual_bases: false, fields, virtual_method: vm, dtor };
+    let mut v = vec![];
+    for h_kind in 0..4usize {
+        for mode in [HideMode::OpaqueOption, HideMode::BlocklistType, HideMode::BlocklistAndOpaque] {
+            // node 0: a helper base, node 1: template, node 2: H, then the users
+            let mut nodes = vec![
+                node(NodeKind::Class, vec![], vec![FieldKind::Int], false, false),
+                node(NodeKind::Template, vec![], vec![FieldKind::T, FieldKind::Int], false, false),
+            ];
+            let h = match h_kind {
+                0 => node(NodeKind::Class, vec![], vec![FieldKind::Int, FieldKind::Double], false, false),
+                1 => node(NodeKind::Class, vec![], vec![FieldKind::Int], true, false),
+                2 => node(NodeKind::Class, vec![], vec![FieldKind::Int], false, true),
+                _ => node(NodeKind::Class, vec![0], vec![FieldKind::Float], true, false),
+            };
+            nodes.push(h);
+            // a blocklisted base class is a known finding: the base users only exist for the opaque mode
+            let with_bases = mode == HideMode::OpaqueOption;
+            if with_bases {
+                nodes.push(node(NodeKind::Class, vec![2], vec![FieldKind::Int], false, false)); // derived, plain
+                nodes.push(node(NodeKind::Class, vec![2], vec![FieldKind::Int], true, false)); // derived with its own virtual method
+                nodes.push(node(NodeKind::Class, vec![0, 2], vec![FieldKind::Double], false, false)); // second base
+            }
+            nodes.push(node(NodeKind::Class, vec![], vec![FieldKind::Int, FieldKind::ByValue(2), FieldKind::Int], false, false));
+            nodes.push(node(NodeKind::Class, vec![], vec![FieldKind::ArrOf(2, 3), FieldKind::PtrTo(2)], false, false));
+            nodes.push(node(NodeKind::Class, vec![], vec![FieldKind::Inst(1, Arg::Node(2)), FieldKind::PtrInst(1, Arg::Node(2))], false, false));
+            let graph = Graph { nodes, cpp: true };
+            // the picker selects H among the classes (templates are not classes): position 1
+            let n_classes = if with_bases { 8 } else { 5 };
+            let pick = ((1usize << 16) / n_classes + 100) as u16;
+            for flags in [vec![], vec!["--with-derive-default".to_string(), "--with-derive-hash".to_string(), "--with-derive-partialeq".to_string()]] {
+                v.push(Case { prog: Program { decls: vec![] }, hide: vec![(pick, mode)], file_prefix: None, flags, keep_known: false, cpp: Some(graph.clone()) });
+            }
+        }
+    }
+    v
 }
